@@ -18,6 +18,7 @@ inductive SzT where
   | lenTimes (k : Nat)
   | call (ts : SzTs)
   | fold (t : SzT)
+  | opt (ts : SzTs)                  -- `if let Some(x) = &self.x { … } else { 0 }`: an optional tail
   | other
 inductive SzTs where
   | nil
@@ -42,6 +43,8 @@ def szEval : SzT → Val → Option Nat
   | .lenTimes k, .list vs => some (vs.length * k)
   | .call ts, .tuple vs => szSum ts vs
   | .fold t, .list vs => sumMap (szEval t) vs
+  | .opt _, .none => some 0
+  | .opt ts, .tuple vs => szSum ts vs
   | _, _ => Option.none
 def szSum : SzTs → List Val → Option Nat
   | .nil, [] => some 0
@@ -56,6 +59,7 @@ def supported : SzT → Bool
   | .other => false
   | .call ts => supportedS ts
   | .fold t => supported t
+  | .opt ts => supportedS ts
   | _ => true
 def supportedS : SzTs → Bool
   | .nil => true
@@ -93,7 +97,7 @@ def szM : Member → SzT
       | some k => .lenTimes k
       | Option.none => .fold (szTy t)
   | .ifs _ _ => .other
-  | .optional _ => .other
+  | .optional ms => .opt (szMs ms)
 def szMs : Members → SzTs
   | .nil => .nil
   | .cons m ms => .cons (szM m) (szMs ms)
